@@ -174,11 +174,15 @@ CHECKS = {
              "1..64 KiB incl. 15/16/17, 2047/2048/2049, 3 sectors +-1; every result compared with the reference plaintext under the io.Reader/io.ReaderAt/io.Seeker "
              "contracts, then io.ReadAll of the whole view; invalid tables (count 0/1, first start != 0, end <= start, decreasing, table beyond the file, count 4096) "
              "must be rejected by the constructor. non-trivial = a read that starts or ends inside an encrypted sector, or spans a region border, or touches the cleared "
-             "table; positional and sequential counted separately; distinct by (kind, offset mod 2048, length, region count, clearing)",
+             "table; positional and sequential counted separately; distinct by (kind, offset mod 2048, length, region count, clearing). Unit giant: synthetic stored files of "
+             "4 GiB..16 TiB (bytes = PRF of the offset, no disk space) with a valid table whose last plain region often lies just below sector 2^31 (one enormous encrypted gap), "
+             "ReadAt and Seek+Read at region borders, 2^31, 2^32, 2^42 (sector 2^31), 2^43 (sector 2^32), the end of the file, 2^k+-delta up to 2^63, compared sector by sector with the "
+             "reference (sectors from 2^31 on are plain); non-trivial there = a read at sector >= 2^31, inside a gap beyond sector 2^20, or behind the end",
         assumptions=["crypto/aes and crypto/cipher are trusted; the reference's key derivation and sector decryption agree with the openssl CLI (refcrypt self-test)",
                      "whether a plain region's End sector itself is decrypted is a don't-care fixed consistently per run (DESIGN 2.1)"],
         units=[
             dict(test="TestC10Lib", unit="lib", kind="rapid", checks=(4000, 100000), shards=(8, 16)),
+            dict(test="TestC10Giant", unit="giant", kind="rapid", checks=(2000, 40000), shards=(4, 16)),
         ],
     ),
     "C11": dict(
